@@ -160,6 +160,20 @@ theorem offset_for1_eq (l : List Char) : ∀ (e : Nat) (acc : Int),
     congr 1
     ring
 
+theorem colidx_for1_eq (l : List Char) : ∀ (e : Nat) (acc : Int),
+    col_to_index.for1 (PyT.enumerateFrom (e : Int) (l.map (fun c => [c]))) acc
+      = .ok (acc + A1.colSumRev l e) := by
+  induction l with
+  | nil => intro e acc; simp [PyT.enumerateFrom, col_to_index.for1, A1.colSumRev, pure, Except.pure]
+  | cons c cs ih =>
+    intro e acc
+    simp only [List.map_cons, PyT.enumerateFrom, col_to_index.for1, PyT.ord, pow26, bind, Except.bind]
+    have : ((e : Int) + 1) = ((e + 1 : Nat) : Int) := by omega
+    rw [this, ih]
+    simp only [A1.colSumRev]
+    congr 1
+    ring
+
 theorem strIter_reverse (l : List Char) : (PyT.strIter l).reverse = l.reverse.map (fun c => [c]) := by
   simp [PyT.strIter, List.map_reverse]
 
@@ -243,5 +257,17 @@ theorem xl_col_to_offset_eq_model (s : Text) :
       simp only [bind, Except.bind, pure, Except.pure, A1.colIndex]
       congr 1
       ring_nf
+
+/-! ### `parse_numbers_range.col_to_index` (tokenizer.py) -/
+
+/-- the tokenizer's own column decoder never raises and is the model's `colIndex`, for every text. -/
+theorem col_to_index_eq_model (s : Text) : col_to_index s = .ok (A1.colIndex s) := by
+  unfold col_to_index A1.colIndex
+  have := colidx_for1_eq s.reverse 0 0
+  simp only [PyT.enumerate, strIter_reverse]
+  have e0 : ((0 : Nat) : Int) = 0 := rfl
+  rw [e0] at this
+  rw [this]
+  simp [bind, Except.bind, pure, Except.pure]
 
 end NumbersModel.Translated
